@@ -43,6 +43,7 @@ M0(role, pmce) ==
    \* the W thread's current message
    open |-> FALSE, mtype |-> 0, mid |-> -1, wrote |-> 0, sent |-> 0, started |-> FALSE,
    calls |-> [t \in {"W", "K1", "K2", "K3"} |-> NoCall],
+   closer |-> "",            \* the thread whose close frame was observed on the transport
    held |-> FALSE,            \* C20 under concurrency: a pooled write buffer is held (only by the message-writing thread)
    closedSeen |-> FALSE]
 
@@ -78,6 +79,7 @@ FrameBase(m, f, dl) ==
 
 After(m, f) ==
   [m EXCEPT !.wst = WFStep(m.wst, f, m.role, m.pmce), !.owner = "",
+            !.closer = IF f.op = OpClose THEN m.owner ELSE m.closer,
             !.err = IF f.op = OpClose THEN "closesent" ELSE m.err]
 
 OpW(m, it) ==
@@ -159,6 +161,11 @@ Ret0(m, t, e, late) ==
   ELSE IF ~c.active \/ late THEN Fail(m)                   \* WCBoundedWait: `late` is measured by the harness
   ELSE IF c.api = "SD" THEN (IF IsNil(e) THEN m2 ELSE Fail(m))
   ELSE IF c.api = "XC" THEN (IF ~c.wrote THEN m2 ELSE Fail(m))
+  ELSE IF c.dead /\ c.api = "NW" /\ IsNil(e) /\ m.err = "closesent" /\ m.closer \notin {"", t} /\ ~c.wrote THEN
+       \* The close frame of ANOTHER thread was observed on the transport before this call started, but the closing call
+       \* latches "close sent" only after its transport write has returned: in that window a writer may still be handed
+       \* out.  It writes nothing, and it can never write (the rules for WR / CL on a dead connection apply to it).
+       [m2 EXCEPT !.open = TRUE, !.mtype = c.type, !.mid = c.m, !.wrote = 0, !.sent = 0, !.started = FALSE]
   ELSE IF c.dead THEN
        \* AfterCloseAllFail / FailStop: started after the close or the failure
        \* (a WriteControl with a finite deadline may instead report that it could not get the
